@@ -118,14 +118,14 @@ theorem qu2ho_parallel (q : Quat ℝ) :
     · exact div_nonneg (Real.rpow_nonneg (hoF_nonneg (by linarith [Real.arccos_nonneg q.a])) _) (Real.sqrt_nonneg _)
     · simp only [Vec3.smul, hoF]; congr 1 <;> ring
 
-/-- `ho2ax_single` tests the *squared* length against `1e-8`: every homochoric vector shorter than `1e-4`
-(rotation angle below `2·10⁻⁴`) is mapped to the identity `(ẑ, 0)` -/
-theorem ho2ax_small (h : Vec3 ℝ) (hs : h.x * h.x + h.y * h.y + h.z * h.z < 1 / 10 ^ 8) :
+/-- `ho2ax_single` maps homochoric vectors with squared length below `1e-16` (length below `10⁻⁸`, rotation angle
+below `2·10⁻⁸`) to the identity `(ẑ, 0)` -/
+theorem ho2ax_small (h : Vec3 ℝ) (hs : h.x * h.x + h.y * h.y + h.z * h.z < 1 / 10 ^ 16) :
     Conv.ho2ax h = ⟨⟨0, 0, 1⟩, 0⟩ := by
-  have h0 : -(1 / 10 ^ 8 : ℝ) < h.x * h.x + h.y * h.y + h.z * h.z := by
-    have : (0 : ℝ) < 1 / 10 ^ 8 := by positivity
+  have h0 : -(1 / 10 ^ 16 : ℝ) < h.x * h.x + h.y * h.y + h.z * h.z := by
+    have : (0 : ℝ) < 1 / 10 ^ 16 := by positivity
     nlinarith [mul_self_nonneg h.x, mul_self_nonneg h.y, mul_self_nonneg h.z]
-  simp only [Conv.ho2ax, lt_real, eps8_real, Bool.and_eq_true, lit_real, Nat.cast_zero, Nat.cast_one]
+  simp only [Conv.ho2ax, lt_real, eps16_real, Bool.and_eq_true, lit_real, Nat.cast_zero, Nat.cast_one]
   rw [if_pos ⟨h0, hs⟩]
 
 end Orix
